@@ -836,7 +836,9 @@ pub fn gen_case(g: &mut Gen, kind: Kind, o: &GenOpts) -> TCase {
         Family::Perm => ProblemSpec::Tsp(gen_tsp(g, penalty, 4, 8, false)),
         Family::Tsp => {
             let extreme = g.chance(0.3);
-            ProblemSpec::Tsp(gen_tsp(g, false, 2, 8, extreme))
+            // 2..8 cities; a single city is a (degenerate, valid) instance, too
+            let min = if g.chance(0.03) { 1 } else { 2 };
+            ProblemSpec::Tsp(gen_tsp(g, false, min, if min == 1 { 1 } else { 8 }, extreme))
         }
     };
     let width = match &problem {
